@@ -38,12 +38,12 @@ def connectPayloadV3 (f : ConnectFlags) : List Item :=
 
 /-- The fields of a frame.  CONNECT is the one packet whose layout depends on a field of its own
 body (the Connect Flags): its payload is parsed in a second step and spliced in. -/
-def fieldsV3 (fr : Frame) : Option (List Field) := do
-  let fs ← parseBody (layoutV3 fr.ptype fr.flags) fr.body
+def fieldsV3 (minimal : Bool) (fr : Frame) : Option (List Field) := do
+  let fs ← parseBody minimal (layoutV3 fr.ptype fr.flags) fr.body
   match fr.ptype, fs with
   | .connect, [name, level, .val (.byte cf), keepAlive, .rest payload] =>
     let f ← connectFlags? cf
-    let ps ← parseBody (connectPayloadV3 f) payload
+    let ps ← parseBody minimal (connectPayloadV3 f) payload
     some ([name, level, .val (.byte cf), keepAlive] ++ ps)
   | _, _ => some fs
 
@@ -126,12 +126,19 @@ def projectV3 (t : PType) (flags : UInt8) (fs : List Field) : Option Packet :=
 
 /-- `some (p, total)` iff `bs` starts with a well-formed MQTT 3.1 / 3.1.1 control packet of
 `total` bytes whose field values are `p`. -/
-def decodeV3 (bs : Bytes) : Option (Packet × Nat) := do
-  let fr ← splitFrame false bs
-  let fs ← fieldsV3 fr
+def decodeV3With (minimal : Bool) (bs : Bytes) : Option (Packet × Nat) := do
+  let fr ← splitFrame minimal false bs
+  let fs ← fieldsV3 minimal fr
   guard (validV3 fr.ptype fr.flags fs)
   let p ← projectV3 fr.ptype fr.flags fs
   some (p, fr.total)
+
+/-- The specification proper: every Variable Byte Integer minimally encoded ([MQTT-1.5.5-1]). -/
+def decodeV3 (bs : Bytes) : Option (Packet × Nat) := decodeV3With true bs
+
+/-- The same grammar with non-minimal Variable Byte Integers tolerated (NOT the standard:
+used only to state what a decoder accepts beyond the specification). -/
+def decodeV3Loose (bs : Bytes) : Option (Packet × Nat) := decodeV3With false bs
 
 /-! ## examples (frames typed by hand) -/
 section Examples
